@@ -24,6 +24,13 @@ def library(width: int) -> Dict[str, Fn]:
     rec("inc_all", t_list(INT), E("list", t_list(INT), ()), E("cons", t_list(INT), (E("bin", INT, (x, lit_int(1)), "+"), E("call", t_list(INT), (rest,), "inc_all"))))
     rec("any_neg", BOOL, lit_bool(False), E("bin", BOOL, (E("bin", BOOL, (x, lit_int(0)), "<"), E("call", BOOL, (rest,), "any_neg")), "||"))
     rec("last_or", INT, lit_int(-1), E("when", INT, (rest,), [(PList([], None), x), (PDiscard(), E("call", INT, (rest,), "last_or"))]))
+    # accumulator recursion: the accumulators change (and swap places) on every call
+    acc, a_, b_ = var("acc", INT), var("a", INT), var("b", INT)
+    fns["sum_acc"] = Fn("sum_acc", [("xs", t_list(INT)), ("acc", INT)], INT, E("when", INT, (xs,), [
+        (PList([], None), acc), (PList([PVar("x")], PVar("rest")), E("call", INT, (rest, E("bin", INT, (acc, x), "+")), "sum_acc"))]), rec_depth=width + 2)
+    fns["alt_acc"] = Fn("alt_acc", [("xs", t_list(INT)), ("a", INT), ("b", INT)], INT, E("when", INT, (xs,), [
+        (PList([], None), E("bin", INT, (a_, E("bin", INT, (b_, lit_int(3)), "*")), "-")),
+        (PList([PVar("x")], PVar("rest")), E("call", INT, (rest, b_, E("bin", INT, (a_, x), "+")), "alt_acc"))]), rec_depth=width + 2)
     return fns
 
 
@@ -139,7 +146,7 @@ class Gen:
             if not cands:
                 return self.leaf(ty, scope)
             f = r.choice(cands)
-            return E("call", ty, (self.expr(t_list(INT), scope, d),), f.name)
+            return E("call", ty, tuple(self.expr(pt, scope, d if i == 0 else max(d - 1, 0)) for i, (_, pt) in enumerate(f.params)), f.name)
         if c == "field":
             acc = self.vars_of(scope, t_adt("Acc"))
             want = {"int": "bal", "bool": "flag", "bytes": "owner"}[k]
@@ -388,6 +395,26 @@ def probe_functions(width: int):
     # an unused let is erased by the type checker and never evaluated; an unused expect is kept
     fn("let_unused", ib, INT, E("let", INT, (E("bin", INT, (a, b), "/"), a), "t"))
     fn("expect_unused", [("xs", t_list(INT)), ("a", INT)], INT, E("expect_pat", INT, (var("xs", t_list(INT)), a), PList([PVar("h0")], PDiscard())))
+    # accumulator recursion and list spreads with constant parts
+    fn("acc_sum", [("xs", t_list(INT)), ("a", INT)], INT, E("call", INT, (var("xs", t_list(INT)), a), "sum_acc"))
+    fn("acc_alt", [("xs", t_list(INT)), ("a", INT), ("b", INT)], INT, E("call", INT, (var("xs", t_list(INT)), a, b), "alt_acc"))
+    l34 = E("list", t_list(INT), (lit_int(3), lit_int(4)))
+    fn("spread_const_all", [("a", INT)], INT, E("bin", INT, (a, E("call", INT, (E("cons", t_list(INT), (lit_int(1), E("cons", t_list(INT), (lit_int(2), l34)))),), "sum_ints")), "+"))
+    fn("spread_const_count", [("a", INT)], INT, E("bin", INT, (a, E("call", INT, (E("cons", t_list(INT), (lit_int(1), l34)),), "count")), "*"))
+    fn("spread_var_head", [("a", INT)], INT, E("call", INT, (E("cons", t_list(INT), (a, l34)),), "sum_ints"))
+    fn("spread_eq", [("a", INT)], BOOL, E("bin", BOOL, (E("cons", t_list(INT), (lit_int(1), l34)), E("list", t_list(INT), (lit_int(1), lit_int(3), a))), "=="))
+    # short circuit with a CONSTANT right operand: the left operand is still evaluated first (and may abort)
+    thr = E("bin", BOOL, (E("bin", INT, (lit_int(1), a), "/"), lit_int(0)), ">")
+    fn("and_const_false_right", [("a", INT)], BOOL, E("bin", BOOL, (thr, lit_bool(False)), "&&"))
+    fn("and_const_true_right", [("a", INT)], BOOL, E("bin", BOOL, (thr, lit_bool(True)), "&&"))
+    fn("or_const_true_right", [("a", INT)], BOOL, E("bin", BOOL, (thr, lit_bool(True)), "||"))
+    fn("or_const_false_right", [("a", INT)], BOOL, E("bin", BOOL, (thr, lit_bool(False)), "||"))
+    fn("and_const_left", [("a", INT)], BOOL, E("bin", BOOL, (lit_bool(False), thr), "&&"))
+    fn("or_const_left", [("a", INT)], BOOL, E("bin", BOOL, (lit_bool(True), thr), "||"))
+    fn("or_sc_div", ib, BOOL, E("bin", BOOL, (E("bin", BOOL, (b, lit_int(0)), "=="), E("bin", BOOL, (E("bin", INT, (a, b), "/"), lit_int(1)), ">=")), "||"))
+    fn("ne_bool", pq, BOOL, E("bin", BOOL, (p, q), "!="))
+    fn("eq_bool", pq, BOOL, E("bin", BOOL, (p, q), "=="))
+    fn("ne_bool_const", [("p", BOOL)], BOOL, E("bin", BOOL, (p, lit_bool(True)), "!="))
     # if / else if chains: conditions are tested in source order
     def chain(*parts):
         *pairs, last = parts
